@@ -110,8 +110,15 @@ def oracle(report, scen, rec):
             missing = strict - set(ids)
             if missing:
                 cls = classify_sql(rec, qi)
-                if cls is None and len(rec["cleaned"]) > 1 and rec.get("limit") is not None and \
-                        (rec["limit"] < li or len(rec["spec_incl"]) > rec["limit"]) and sql_limit(rec) == rec["limit"]:
+                # the documented rule, stated here without the model (REQs outside the model — over-long hex — have no model limit):
+                # the last filter that names a limit gives the one LIMIT of the statement, capped by the maximum
+                doc = common.MAX_LIMIT
+                for q in rec["cleaned"]:
+                    if q.limit is not None:
+                        doc = min(q.limit, common.MAX_LIMIT)
+                union_incl = {i for i in rec["stored"] if i in by_id and any(spec.matches(q, by_id[i], False) for q in rec["cleaned"])}
+                if cls is None and len(rec["cleaned"]) > 1 and sql_limit(rec) == doc and (doc < li or len(union_incl) > doc) and \
+                        (rec.get("limit") is None or rec["limit"] == doc):
                     # one LIMIT (taken from the last filter that has one) is applied to the union; the known
                     # class is exactly the documented rule (the model's effectiveLimit), nothing smaller
                     cls = "sql-one-limit-per-req"
